@@ -14,7 +14,7 @@ fn seq_assumptions() -> Vec<String> {
     ]
 }
 
-fn force_final_flush(c: &mut SeqCase, raw: &RawCase, max_bs: u8) {
+fn force_final_flush(c: &mut SeqCase, raw: &RawCase, max_bs: u8, _e: &Exclusions) {
     if !matches!(c.ops.last(), Some(Op::Flush)) {
         c.ops.push(Op::Flush);
     }
@@ -65,6 +65,7 @@ impl Prop for C02 {
             owns: |v| matches!(v.rule, Rule::Reopen | Rule::ReopenOpen) || (v.has_tag("reopened") && matches!(v.rule, Rule::ReadLen | Rule::ApiErr | Rule::Panic)),
             nontrivial: |r, _| r.stats.reopen_compares > 0 && (r.stats.writes + r.stats.discard_freed) > 0,
             tweak: force_final_flush,
+            case_tags: no_tags,
             extra_classes: no_classes,
             max_sched: 200,
             max_extra: 24,
@@ -116,6 +117,7 @@ impl Prop for C03 {
             owns: |v| matches!(v.rule, Rule::CheckCorrupt | Rule::CheckUnder | Rule::CheckLeak),
             nontrivial: |r, _| r.stats.checker_runs > 0 && (r.stats.writes + r.stats.discard_freed) > 0,
             tweak: force_final_flush,
+            case_tags: no_tags,
             extra_classes: no_classes,
             max_sched: 200,
             max_extra: 24,
@@ -126,7 +128,7 @@ impl Prop for C03 {
 // ------------------------------------------------------------------------------------ C10
 pub struct C10;
 
-fn make_read_only(c: &mut SeqCase, _raw: &RawCase, _m: u8) {
+fn make_read_only(c: &mut SeqCase, _raw: &RawCase, _m: u8, _e: &Exclusions) {
     c.read_only = true;
     c.ops.retain(|o| matches!(o, Op::Read { .. } | Op::Reopen { .. } | Op::Fsync));
 }
@@ -184,6 +186,7 @@ impl Prop for C10 {
                 },
                 nontrivial: |r, _| r.stats.cow_writes > 0 && r.stats.reads_after_cow > 0,
                 tweak: no_tweak,
+                case_tags: no_tags,
                 extra_classes: |r, c| {
                     let mut v = vec![];
                     if r.stats.cow_writes > 0 && r.stats.flushes > 0 {
@@ -220,6 +223,7 @@ impl Prop for C10 {
                 owns: |v| v.rule == Rule::RoWrite,
                 nontrivial: |r, _| r.stats.reads_of_initial_nonzero > 0,
                 tweak: make_read_only,
+                case_tags: no_tags,
                 extra_classes: no_classes,
                 max_sched: 100,
                 max_extra: 0,
@@ -281,7 +285,8 @@ impl Prop for C11 {
                 _ => false,
             },
             nontrivial: |r, _| r.stats.discard_freed > 0 || r.stats.discard_boundary > 0,
-            tweak: |c, raw, _| {
+            case_tags: no_tags,
+            tweak: |c, raw, _, _| {
                 // add extreme-argument discards (no effect expected beyond the model rule)
                 let vs = c.layers[0].vsize();
                 let cs = 1u64 << c.layers[0].cluster_bits();
@@ -351,7 +356,8 @@ impl Prop for C16 {
             },
             owns: |v| v.rule == Rule::Align,
             nontrivial: |r, _| r.stats.meta_requests_bs_gt_512 > 0 || r.stats.header_writes > 0,
-            tweak: |c, raw, _| {
+            case_tags: no_tags,
+            tweak: |c, raw, _, _| {
                 // bias towards larger block sizes: this property is about bs > 512
                 let _ = raw;
                 let _ = c;
